@@ -1029,7 +1029,9 @@ class ValueList(Value):
         self.value.remove(item)
 
     def deleteAt(self, index):
-        if index >= len(self.value):
+        if index < 0:
+            index = len(self.value) + index
+        if index < 0 or index >= len(self.value):
             return NULL
         result = self.value[index]
         del self.value[index]
